@@ -10,6 +10,7 @@ import (
 	"fmt"
 	"math"
 	"os"
+	"runtime"
 	"strconv"
 	"strings"
 )
@@ -204,7 +205,8 @@ func FSRoot() string {
 }
 
 // RunReplay runs the entry named in the replay file and prints one result line:
-//   VERIF-RESULT ok | assert-fail <label> | assume-fail | panic <message>
+//
+//	VERIF-RESULT ok | assert-fail <label> | assume-fail | panic <message>
 func RunReplay(entries map[string]func()) {
 	r := load()
 	f, ok := entries[r.Entry]
@@ -228,4 +230,210 @@ func RunReplay(entries map[string]func()) {
 	}()
 	f()
 	fmt.Printf("VERIF-RESULT ok\n")
+}
+
+// ---- cooperative scheduler (native re-enactment of a schedule found by symgo, see symgo/sched.go)
+//
+// Goroutines started with Go run one at a time, passing a baton; the mutex and atomic operations of the
+// scheduled packages reach this file through the replay build's source rewrite (X.Lock() becomes
+// SchedLock(X.TryLock), ...). The schedule is read from the replay file: decision sched_<n> says which
+// goroutine runs after the n-th decision point; a missing decision means "go on" / "lowest id".
+
+type nthread struct {
+	id     int
+	resume chan struct{}
+	done   bool
+	ready  func() bool
+}
+
+var ns struct {
+	threads    []*nthread
+	cur        *nthread
+	n          int
+	preempts   int
+	maxPreempt int
+	picks      int
+	maxPicks   int
+	fatal      any
+}
+
+func nsInit() {
+	if ns.threads == nil {
+		m := &nthread{id: 0, resume: make(chan struct{})}
+		ns.threads = []*nthread{m}
+		ns.cur = m
+		ns.maxPreempt = Bound("PREEMPT", 1)
+		ns.maxPicks = Bound("PICKS", 4)
+	}
+}
+
+func nsOthers() []*nthread {
+	var r []*nthread
+	for _, t := range ns.threads {
+		if t != ns.cur && !t.done && (t.ready == nil || t.ready()) {
+			r = append(r, t)
+		}
+	}
+	return r
+}
+
+func nsPick() *nthread {
+	o := nsOthers()
+	if len(o) == 0 {
+		return nil
+	}
+	if len(o) == 1 || ns.picks >= ns.maxPicks {
+		return o[0]
+	}
+	ns.picks++
+	ns.n++
+	v := Choose(fmt.Sprintf("sched_%d", ns.n), 0, len(o)-1)
+	if v < 0 || v >= len(o) {
+		panic(Stop{"schedule-mismatch", "pick out of range"})
+	}
+	return o[v]
+}
+
+func nsSwitch(next *nthread) {
+	me := ns.cur
+	if next == me {
+		return
+	}
+	ns.cur = next
+	next.resume <- struct{}{}
+	<-me.resume
+	if ns.fatal != nil && me.id == 0 {
+		f := ns.fatal
+		ns.fatal = nil
+		panic(f)
+	}
+}
+
+// Go starts f as a scheduled goroutine.
+func Go(f func()) {
+	nsInit()
+	t := &nthread{id: len(ns.threads), resume: make(chan struct{})}
+	ns.threads = append(ns.threads, t)
+	go func() {
+		<-t.resume
+		var next *nthread
+		r := func() (r any) {
+			defer func() { r = recover() }()
+			f()
+			t.done = true
+			next = nsPick()
+			return nil
+		}()
+		t.done = true
+		if r != nil {
+			ns.fatal = r
+			next = ns.threads[0]
+		} else if next == nil {
+			ns.fatal = Stop{"blocked", "all goroutines blocked"}
+			next = ns.threads[0]
+		}
+		ns.cur = next
+		next.resume <- struct{}{}
+	}()
+	SchedPoint()
+}
+
+// SchedPoint: the running goroutine may be pre-empted here.
+func SchedPoint() {
+	if ns.threads == nil || ns.preempts >= ns.maxPreempt {
+		return
+	}
+	o := nsOthers()
+	if len(o) == 0 {
+		return
+	}
+	ns.n++
+	v := Choose(fmt.Sprintf("sched_%d", ns.n), 0, len(o))
+	if v > 0 {
+		if v > len(o) {
+			panic(Stop{"schedule-mismatch", "switch out of range"})
+		}
+		ns.preempts++
+		nsSwitch(o[v-1])
+	}
+}
+
+func nsBlock(ready func() bool) {
+	if ns.threads == nil {
+		for !ready() {
+			runtime.Gosched()
+		}
+		return
+	}
+	me := ns.cur
+	for !ready() {
+		me.ready = ready
+		next := nsPick()
+		if next == nil {
+			me.ready = nil
+			if me.id == 0 {
+				panic(Stop{"blocked", "all goroutines blocked"})
+			}
+			ns.fatal = Stop{"blocked", "all goroutines blocked"}
+			next = ns.threads[0]
+		}
+		nsSwitch(next)
+		me.ready = nil
+	}
+}
+
+// Join waits for every goroutine started with Go.
+func Join() {
+	if ns.threads == nil {
+		return
+	}
+	me := ns.cur
+	nsBlock(func() bool {
+		for _, t := range ns.threads {
+			if t != me && !t.done {
+				return false
+			}
+		}
+		return true
+	})
+}
+
+// SchedLock replaces X.Lock() / X.RLock(): try is X.TryLock / X.TryRLock, unlock the matching release.
+// Whether the goroutine can go on is tested without keeping the lock (other goroutines evaluate the
+// test too); the lock is taken once the goroutine has the baton.
+func SchedLock(try func() bool, unlock func()) {
+	if ns.threads == nil {
+		for !try() {
+			runtime.Gosched()
+		}
+		return
+	}
+	SchedPoint()
+	nsBlock(func() bool {
+		if try() {
+			unlock()
+			return true
+		}
+		return false
+	})
+	if !try() {
+		panic(Stop{"schedule-mismatch", "lock not free after wake-up"})
+	}
+}
+
+// SchedUnlock replaces X.Unlock() / X.RUnlock().
+func SchedUnlock(unlock func()) {
+	unlock()
+	SchedPoint()
+}
+
+// SchedAtomic wraps a value-returning sync/atomic call; SchedAtomic0 follows one that returns nothing.
+func SchedAtomic[T any](v T) T {
+	SchedPoint()
+	return v
+}
+
+func SchedAtomic0(f func()) {
+	f()
+	SchedPoint()
 }
